@@ -53,6 +53,14 @@ def monitor(case, o):
     out = []
     evs = parse_log(o)
     marks = [int(a[0]) for t, ev, a in evs if ev == "mark"]
+    if case.get("monitor_only") == "depth":
+        sent = [op["mark"] for op in case["ops"] if op["op"] in ("run", "run_async")]
+        if sorted(marks) != sorted(sent):
+            out.append(("C10_executed_once: with several hundred controls pending in one lane, not every control was executed exactly once",
+                        {"sent": len(sent), "executed": len(marks), "missing": sorted(set(sent) - set(marks))[:5]}))
+        unresolved = [k for k, w in enumerate(o["tickets"]) if w[0] is None]
+        if unresolved:
+            out.append(("C10_last_ticket_implies_all: tickets of queued controls never resolved", {"first_unresolved_op": unresolved[0], "count": len(unresolved)}))
     if marks != sorted(marks) or len(set(marks)) != len(marks):
         out.append(("C10_fifo_within_priority: normal-priority run() calls executed out of send order or twice", marks))
     ops = case["ops"]
@@ -65,6 +73,16 @@ def monitor(case, o):
                 if later["op"] == "run" and later["mark"] in mtime and mtime[later["mark"]] < done:
                     out.append(("C10_fifo_within_priority: a control sent after run_async() ran before that hook had finished",
                                 f"run_async mark {op['mark']} busy until {done}, run mark {later['mark']} at {mtime[later['mark']]}"))
+    # a signal() call is an ordinary (normal-lane) control whatever the signal: within a burst of run() and signal() calls on a running
+    # command whose child logs and survives... the signals are delivered between the run() marks in send order
+    if not any(op["op"] in ("run_async", "raw") or "with_signal" in op["op"] or op["op"] in ("stop", "restart", "try_restart", "delete", "delete_now", "to_wait", "drop_handle")
+               for op in ops):
+        seq_sent = [("mark", str(op["mark"])) if op["op"] == "run" else ("signal", None) for op in ops if op["op"] in ("run", "signal")]
+        seq_got = [("mark", a[0]) if ev == "mark" else ("signal", None) for t, ev, a in evs if ev in ("mark", "signal")]
+        nsig = sum(1 for x in seq_got if x[0] == "signal")
+        if nsig == sum(1 for x in seq_sent if x[0] == "signal") and seq_got != seq_sent:
+            out.append(("C10_fifo_within_priority: a signal() call was executed out of send order among the run() calls around it",
+                        {"sent": seq_sent, "executed": seq_got}))
     if not any(op["op"] == "run_async" for op in ops):
         for k, op in enumerate(ops):
             if op["op"] != "delete_now":
@@ -109,6 +127,28 @@ class C10(C04):
                 ops[-1]["yield"] = True
             extra.append({"id": 0, "script": {"children": [dict(r.choice(CHILD_CLASSES))], "spawn_fail": [], "signal_fail": [], "kill_fail": []},
                           "ops": ops, "waiters": 1, "tail": 2000})
+        # signal() among run() calls in one burst, for every signal class (incl. the forced stop), on a child that reacts in every way
+        from props.jobcommon import SIGS
+        for i in range(40 if tier == "quick" and not deep else 300):
+            ops, mark = [{"at": 0, "op": "start", "yield": True}], 1
+            for k in range(r.randint(3, 6)):
+                if r.random() < 0.45:
+                    ops.append({"at": 30, "op": "signal", "sig": SIGS[i % len(SIGS)] if r.random() < 0.6 else r.choice(SIGS), "yield": False})
+                else:
+                    ops.append({"at": 30, "op": "run", "mark": mark, "yield": False})
+                    mark += 1
+            ops[-1]["yield"] = True
+            extra.append({"id": 0, "script": {"children": [dict(r.choice(CHILD_CLASSES))], "spawn_fail": [], "signal_fail": [], "kill_fail": []},
+                          "ops": ops, "waiters": 1, "tail": 1000})
+        # depth: several hundred controls pending in one lane while the task is busy (or the normal lane is held by an armed timer)
+        for n, held in ((300, "busy"), (520, "busy"), (300, "timer")):
+            ops = [{"at": 0, "op": "start", "yield": True}]
+            ops.append({"at": 10, "op": "run_async", "mark": 0, "dur": 30, "yield": True} if held == "busy" else
+                       {"at": 10, "op": "stop_with_signal", "sig": "Terminate", "grace": 50, "yield": True})
+            ops += [{"at": 20, "op": "run", "mark": k + 1, "yield": False} for k in range(n)]
+            ops[-1]["yield"] = True
+            extra.append({"id": 0, "monitor_only": "depth", "script": {"children": [{"self_exit": None, "ignore_all": True}], "spawn_fail": [], "signal_fail": [], "kill_fail": []},
+                          "ops": ops, "waiters": 1, "tail": 1000})
         extra += lanes_cases(r, 48 if tier == "quick" and not deep else 480)
         c = job_check(self, "thorough" if deep else tier, seed, monitor, extra)
         if not c.errors:
